@@ -127,6 +127,23 @@ pub fn source(segs: &[Seg]) -> String {
     segs.iter().map(|s| s.source()).collect()
 }
 
+/// the same sequence written with other delimiters: (block start/end, variable start/end,
+/// comment start/end)
+pub fn source_with(segs: &[Seg], d: &[&str; 6]) -> String {
+    let [bs, be, vs, ve, cs, ce] = *d;
+    segs.iter()
+        .map(|s| match s {
+            Seg::Text(t) => t.clone(),
+            Seg::Var(l, r) => format!("{vs}{} \"V\" {}{ve}", l.text(), r.text()),
+            Seg::Block(l, r) => format!("{bs}{} set q = 1 {}{be}", l.text(), r.text()),
+            Seg::Comment(l, r) => format!("{cs}{} c {}{ce}", l.text(), r.text()),
+            Seg::Raw(l1, r1, c, l2, r2) => {
+                format!("{bs}{} raw {}{be}{}{bs}{} endraw {}{be}", l1.text(), r1.text(), c, l2.text(), r2.text())
+            }
+        })
+        .collect()
+}
+
 pub fn expected(segs: &[Seg], cfg: Settings) -> String {
     let mut segs = normalize(segs);
     // one trailing line ending of the template is removed unless keep_trailing_newline
